@@ -102,8 +102,10 @@ func rangeBuilderRule(p *core.Program, r *core.Report) {
 		}
 		makesInts := false
 		ast.Inspect(fd.Body, func(n ast.Node) bool {
-			if c, ok := n.(*ast.CallExpr); ok && isBuiltinCall(oinfo, c, "make") && len(c.Args) == 2 {
-				if sl, ok := oinfo.TypeOf(c).(*types.Slice); ok && types.Identical(sl.Elem(), types.Typ[types.Int]) && eng.ExprStr(c.Args[1]) != "0" && !strings.HasPrefix(eng.ExprStr(c.Args[1]), "len(") {
+			if c, ok := n.(*ast.CallExpr); ok && isBuiltinCall(oinfo, c, "make") && (len(c.Args) == 2 || len(c.Args) == 3) {
+				// sized by a computed quantity: the length, or the capacity of a slice filled by append
+				sz := c.Args[len(c.Args)-1]
+				if sl, ok := oinfo.TypeOf(c).(*types.Slice); ok && types.Identical(sl.Elem(), types.Typ[types.Int]) && eng.ExprStr(sz) != "0" && !strings.HasPrefix(eng.ExprStr(sz), "len(") {
 					makesInts = true
 				}
 			}
